@@ -1,5 +1,5 @@
 """C01 Story order after any story-level merge follows the MOS protocol."""
-from .. import runner, spec
+from .. import runner, spec, gen
 from ..harnesses import HStory
 from ..monitors import OrderMonitor
 from .common import mixed_part, live_part
@@ -32,14 +32,19 @@ def run(tier):
              'monitors': mon},
             {'label': 'no-timing-metadata', 'harness': HStory(pool=4, cap=3, max_list=2, layouts=('before',), timing='nometa'),
              'monitors': mon},
+            {'label': 'exotic-ids', 'harness': HStory(pool=gen.EXOTIC_IDS[:4], cap=3, max_list=2, layouts=('before',)), 'monitors': mon},
         ]
     else:
         parts = [
-            {'label': 'pool6-cap5-L2', 'harness': HStory(pool=6, cap=5, max_list=2), 'monitors': mon},
-            {'label': 'pool5-cap4-L3', 'harness': HStory(pool=5, cap=4, max_list=3), 'monitors': mon},
-            {'label': 'no-timing-metadata', 'harness': HStory(pool=5, cap=4, max_list=2, layouts=('before', 'between'), timing='nometa'),
+            {'label': 'pool6-cap5-L2', 'harness': HStory(pool=6, cap=5, max_list=2, layouts=('before', 'after', 'none')), 'monitors': mon},
+            {'label': 'between-pool5-cap4-L2', 'harness': HStory(pool=5, cap=4, max_list=2, layouts=('between',), nmeta=2), 'monitors': mon},
+            {'label': 'pool5-cap4-L3', 'harness': HStory(pool=5, cap=4, max_list=3, layouts=('before',)), 'monitors': mon},
+            {'label': 'no-timing-metadata', 'harness': HStory(pool=5, cap=4, max_list=2, layouts=('before',),
+                                                             timing={'A': 'nometa', 'AB': 'dur', 'C': 'none', 'D': 'both', 'E': 'nometa'}),
              'monitors': mon},
-            {'label': 'pretty-messages', 'harness': HStory(pool=4, cap=3, max_list=2, pretty_msgs=True), 'monitors': mon},
+            {'label': 'pretty-messages', 'harness': HStory(pool=4, cap=3, max_list=2, pretty_msgs=True, layouts=('before', 'between'), nmeta=2),
+             'monitors': mon},
+            {'label': 'exotic-ids', 'harness': HStory(pool=gen.EXOTIC_IDS, cap=4, max_list=2, layouts=('before',)), 'monitors': mon},
         ]
     parts.append(mixed_part(tier, mon))
     parts.append(live_part(tier, mon, spec.STORY_KINDS if 'c01' == 'c01' else spec.ITEM_KINDS))
